@@ -132,11 +132,8 @@ def build(run):
         # (4 chars over the full alphabet exhausts 12 GB)
         crate2, _ = lexer_crate(run, "c19lexfull", 2, full_alphabet=True)
         lem2 = dict(lexer_lemma(run, crate2, 2), id="K-C19-a.intent_lexer_step.full_alphabet")
-        import kani_run as _kr
-        res = _kr.run_all([(crate, lem["harness"], {"timeout": 3000}), (crate2, lem2["harness"], {"timeout": 3000})])
-        run.crates += [crate, crate2]
-        run._kani_result(crate, lem, res[0])
-        run._kani_result(crate2, lem2, res[1])
+        run.kani(crate, [lem], timeout=3000)
+        run.kani(crate2, [lem2], timeout=3000)
     else:
         run.kani(crate, [lem], timeout=600)
 
